@@ -1,4 +1,5 @@
-import EdpVerif.Impl.Term
+import EdpVerif.Impl.Encode
+import EdpVerif.Impl.Den
 /-
 Model of crates/edp_client/src/control.rs: `ControlMessageType` (+ `TryFrom<u8>`), and
 `ControlMessage::from_term / to_term / into_term`.
@@ -14,7 +15,7 @@ namespace Edp.Control
 inductive Src where
   /-- `elements[i].clone()` / `mem::take(&mut elements[i])` -/
   | elem (i : Nat)
-  /-- `let id_raw = elements[i].as_integer().ok_or_else(..)?; if id_raw < 0 { return Err(..) }; id_raw as u64` -/
+  /-- `let id = unlink_id_from_term(&elements[i], "..")?;` -/
   | uid (i : Nat)
   deriving Repr, DecidableEq
 
@@ -26,7 +27,7 @@ def Src.idx : Src → Nat
 inductive Out where
   /-- `f.clone()` / `f` -/
   | fld (f : String)
-  /-- `OwnedTerm::Integer(*f as i64)` / `OwnedTerm::Integer(f as i64)` -/
+  /-- `unlink_id_to_term(*f)` / `unlink_id_to_term(f)` -/
   | uid (f : String)
   deriving Repr, DecidableEq
 
@@ -100,6 +101,31 @@ def selectArm (tbl : Table) (ty : Option String) (len : Nat) : Option FromArm :=
   | none => none
   | some n => tbl.fromArms.find? (fun a => a.ty = n ∧ a.arity = len)
 
+/-- `digits.iter().rposition(|&d| d != 0).map_or(0, |p| p + 1)`: the number of digits up to the last non-zero one -/
+def sigDigits : Bytes → Nat
+  | [] => 0
+  | b :: r => if sigDigits r = 0 then (if b = 0 then 0 else 1) else sigDigits r + 1
+
+/-- `unlink_id_from_term` (`none` = `Err`): `Integer(i)` with `i ≥ 0`, or a `BigInt` that is not negative (a negative
+sign on an all-zero magnitude passes) and has at most 8 significant little-endian digits -/
+def unlinkIdFromTerm : Term → Option Nat
+  | .int i => if i < 0 then none else some i.toNat
+  | .big neg d =>
+    if 0 < sigDigits d ∧ neg = true then none
+    else if 8 < sigDigits d then none
+    else some (magVal (d.take (sigDigits d)))
+  | _ => none
+
+/-- `unlink_id_to_term`: `Integer` up to `i64::MAX`, above that `BigInt(+, id.to_le_bytes())` -/
+def unlinkIdToTerm (n : Nat) : Term :=
+  if n ≤ 9223372036854775807 then .int (n : Int) else .big false (leN 8 n)
+
+/-- the integer an integer term stands for (`Integer` and `BigInt` are the two representations) -/
+def intOf : Term → Option Int
+  | .int v => some v
+  | .big neg d => some (bigVal neg d)
+  | _ => none
+
 def evalSrc (els : List Term) : Src → Except PErr FVal
   | .elem i =>
     match els[i]? with
@@ -107,8 +133,10 @@ def evalSrc (els : List Term) : Src → Except PErr FVal
     | none => .error .panic
   | .uid i =>
     match els[i]? with
-    | some (.int v) => if v < 0 then .error .err else .ok (.uid v.toNat)
-    | some _ => .error .err
+    | some t =>
+      match unlinkIdFromTerm t with
+      | some n => .ok (.uid n)
+      | none => .error .err
     | none => .error .panic
 
 def evalFields (els : List Term) : List (String × Src) → Except PErr (List (String × FVal))
@@ -135,9 +163,6 @@ def parse (tbl : Table) : Term → Except PErr Msg
     else .error .err
   | _ => .error .err
 
-/-- `x as i64` for `x : u64` -/
-def asI64 (n : Nat) : Int := if n < 2 ^ 63 then (n : Int) else (n : Int) - 2 ^ 64
-
 /-- `none`: the field does not exist with that type (cannot happen for a Rust value of the enum) -/
 def evalOut (fs : List (String × FVal)) : Out → Option Term
   | .fld f =>
@@ -146,7 +171,7 @@ def evalOut (fs : List (String × FVal)) : Out → Option Term
     | _ => none
   | .uid f =>
     match lookup fs f with
-    | some (.uid n) => some (.int (asI64 n))
+    | some (.uid n) => some (unlinkIdToTerm n)
     | _ => none
 
 def evalOuts (fs : List (String × FVal)) : List Out → Option (List Term)
@@ -245,17 +270,20 @@ def tagged : Term → Bool
   | .tuple (.int i :: _) => decide (0 ≤ i ∧ i ≤ 255)
   | _ => false
 
-/-- the element an unlink-id field is read from is `Integer(v)` with `0 ≤ v < 2^63`
-(every non-negative `i64`; `elem` sources carry no condition) -/
+/-- the element an unlink-id field is read from stands for an integer `0 ≤ id < 2^64`
+(`elem` sources carry no condition) -/
 def srcIdOk (els : List Term) : Src → Bool
   | .elem _ => true
   | .uid i =>
     match els[i]? with
-    | some (.int v) => decide (0 ≤ v ∧ v < 2 ^ 63)
-    | _ => false
+    | some e =>
+      match intOf e with
+      | some v => decide (0 ≤ v ∧ v < 2 ^ 64)
+      | none => false
+    | none => false
 
-/-- guard of the partial round-trip theorem: in the arm `from_term` takes for this tuple (if any), every
-`u64` id field is read from an `Integer(v)`, `0 ≤ v < 2^63` -/
+/-- what the property itself excludes: in the arm `from_term` takes for this tuple (if any), every `u64` id field
+is read from an element that stands for a non-negative integer of at most 64 bits -/
 def idGuard (tbl : Table) : Term → Bool
   | .tuple (.int raw :: rest) =>
     match selectArm tbl (fromU8 tbl raw.toNat) (rest.length + 1) with
@@ -293,15 +321,12 @@ def Msg.mapTerms (w : Term → Term) : Msg → Msg
   | .generic ty l => .generic ty (l.map w)
 
 /-- what a trip through the wire does to a term, as far as control messages care: tuples are mapped element by
-element and `Integer 0..255` comes back as itself (for `decode ∘ encode` this is C01's theorem) -/
+element, `Integer 0..255` comes back as itself, and an integer comes back as an integer of the same value (possibly in
+the other representation).  For `decode ∘ encode` this is C01's theorem. -/
 structure Transparent (w : Term → Term) : Prop where
   tuple : ∀ l, w (.tuple l) = .tuple (l.map w)
   small : ∀ i : Int, 0 ≤ i → i ≤ 255 → w (.int i) = .int i
-
-/-- every `u64` id of the message keeps its value under `as i64` and comes back from `w` as the same `Integer` -/
-def IdsSurvive (w : Term → Term) : Msg → Prop
-  | .generic _ _ => True
-  | .known _ fs => ∀ f n, lookup fs f = some (.uid n) → n < 2 ^ 63 ∧ w (.int (n : Int)) = .int (n : Int)
+  ints : ∀ t v, intOf t = some v → intOf (w t) = some v
 
 /-- two messages are the same variant with the same value for every field name -/
 def Msg.Same : Msg → Msg → Prop
